@@ -101,7 +101,17 @@ func (p params) String() string {
 
 func units(tier string) []mc.Unit {
 	var us []mc.Unit
-	add := func(p params) { us = append(us, mc.Unit{Name: p.String(), Params: p}) }
+	slices := 1
+	if tier == "thorough" {
+		slices = 24 // one unit's tree has ~10^4 executions at bound 2; every execution opens 4+ databases
+	}
+	add := func(p params) {
+		n := 1
+		if p.Bound >= 2 {
+			n = slices
+		}
+		us = append(us, mc.Sliced(mc.Unit{Name: p.String(), Params: p}, n)...)
+	}
 	initials := [][]string{{"e", "e", "e"}, {"e", "-", "E"}, {"e", "e", "-", "e"}}
 	forks := func(n int) []Mutation {
 		var out []Mutation
@@ -134,12 +144,12 @@ func units(tier string) []mc.Unit {
 						continue
 					}
 					// successive reorgs, reorg then growth, finality moving in between
-					add(params{ini, fin, []Mutation{f1, {"fork", 1, []string{"e", "e"}}}, chunk, 0, bound})
-					add(params{ini, fin, []Mutation{f1, {"finalize", 0, nil}, {"extend", 0, []string{"e"}}, {"fork", 1, []string{"E"}}}, chunk, 0, bound})
+					add(params{ini, fin, []Mutation{f1, {"fork", 1, []string{"e", "e"}}}, chunk, 0, 1})
+					add(params{ini, fin, []Mutation{f1, {"finalize", 0, nil}, {"extend", 0, []string{"e"}}, {"fork", 1, []string{"E"}}}, chunk, 0, 1})
 				}
 			}
 			// nothing processed is replaced: growth and finality only (no rewind allowed)
-			add(params{ini, fin, []Mutation{{"extend", 0, []string{"e"}}, {"finalize", 0, nil}, {"extend", 0, []string{"-", "e"}}}, 10, 1, bound})
+			add(params{ini, fin, []Mutation{{"extend", 0, []string{"e"}}, {"finalize", 0, nil}, {"extend", 0, []string{"-", "e"}}}, 10, 1, 1})
 		}
 	}
 	return us
@@ -778,7 +788,7 @@ func main() {
 		ID: "C06", Level: "model_checking",
 		Units:              units,
 		Batch:              func(string) int { return 1 },
-		MaxEvalsPerProcess: 1500,
+		MaxEvalsPerProcess: 600,
 		Bound:              func(tier string, u mc.Unit) int { return u.Params.(params).Bound },
 		Run:                run,
 		Setup:              func(string) { kit.Quiet() },
@@ -787,14 +797,14 @@ func main() {
 			"mutation happens before this RPC, whether the node is stopped and restarted here; explored by DFS with a bound on deviations from the default schedule. " +
 			"non-trivial = executions in which the store was rewound; distinct = distinct (unit, choices, final leaves, rewind points)",
 		Assumptions: []string{
-			"deviation bound: quick 1, thorough 2 deviations from the default schedule (downloader, driver, hand-over, notification, detector check at quiescence, mutation at quiescence)",
+			"deviation bound: 1 deviation from the default schedule, thorough: 2 deviations for the single-fork scripts (downloader, driver, hand-over, notification, detector check at quiescence, mutation at quiescence)",
 			"a stop = contexts cancelled and every further store/tracker call of that incarnation refused; a detector check in flight finishes its own database writes (a kill in the middle of those is not modelled)",
 			"forks never go below the finalized block; watched events are UpdateL1InfoTree logs parsed by the real l1infotreesync appender",
 			"the property's convergence clause is judged at quiescence after the script is exhausted and a detector check ended silently",
 		},
 		Bounds: func(tier string) map[string]any {
 			return map[string]any{"initial_chains": "3 shapes of 3-4 blocks", "finalized": []int{0, 1}, "fork_depth": "1..2", "fork_content": "same events / removed+moved later (longer) / added (longer)",
-				"scripts": "one fork; fork+fork; fork, finalize, extend, fork; growth only", "deviation_bound": map[string]int{"quick": 1, "thorough": 2}[tier], "horizon_steps": 600}
+				"scripts": "one fork; fork+fork; fork, finalize, extend, fork; growth only", "deviation_bound": map[string]string{"quick": "1", "thorough": "2 for single-fork scripts (with a restart budget of 1), 1 for the multi-mutation scripts"}[tier], "horizon_steps": 600}
 		},
 	})
 }
